@@ -59,7 +59,8 @@ BYTE_NAMES = ['fromcsv', 'fromtsv', 'frompickle', 'fromtext',
               'fromjson-lines']
 CONSUMERS = ['next', 'next', 'next', 'islice', 'head', 'look', 'lookstr',
              'see', 'repr_html', 'rowslice', 'data-slice', 'records-slice',
-             'list-head', 'len-head', 'tuple-rowslice']
+             'list-head', 'len-head', 'tuple-rowslice', 'header',
+             'fieldnames']
 # list(v) / tuple(v) / len(v) on a petl view iterate it twice (the length is
 # taken first): the cost is still O(k), with factor 2
 TWICE = ('list-head', 'len-head', 'tuple-rowslice')
@@ -111,6 +112,11 @@ def gen_case(rng, tier, g):
     # consumers (head, look, ...) do not apply to them
     kinds = ['next', 'next', 'islice'] if RECIPES[stack[-1][0]].items \
         else CONSUMERS
+    if any(n == 'skip' for n, _ in stack) and not \
+            RECIPES[stack[-1][0]].items:
+        # the header of skip(n) is the n-th source row: consumers that ask
+        # for the header only would be charged for it
+        kinds = [k for k in kinds if k not in ('header', 'fieldnames')]
     for i in range(ncons):
         consumers.append(_fix({'kind': rng.choice(kinds),
                                'k': rng.choice([0, 1, 2, 3, 5, 8, 12])}))
@@ -184,6 +190,12 @@ def _run_consumer(e, view, c, tid, items):
         if kind == 'rowslice':
             got = list(iter(e.rowslice(view, k)))
             return max(0, len(got) - 1)
+        if kind == 'header':
+            e.header(view)
+            return 0
+        if kind == 'fieldnames':
+            e.fieldnames(view)
+            return 0
         if kind == 'list-head':
             got = list(e.head(view, k))
             return max(0, len(got) - 1)
@@ -220,6 +232,8 @@ def _run_consumer(e, view, c, tid, items):
 # demand of a consumer in data rows (look-style consumers peek one row beyond
 # the limit to know whether to print "...")
 def _demand(c):
+    if c['kind'] in ('header', 'fieldnames'):
+        return 0
     if c['kind'] in ('look', 'lookstr', 'see', 'repr_html'):
         return c['k'] + 1 if c['k'] > 0 else 0
     return c['k']
